@@ -213,7 +213,9 @@ def run_cases(run, builds, cfg, max_real=60, max_near=14, tag="c08"):
         if len(real) > max_real:
             prio = [x for x in real if G.priority_selector(x)]
             if len(prio) > max_real // 2:
-                prio = rng.sample(prio, max_real // 2)
+                longest = sorted(prio, key=lambda x: -x.count("."))[:8]        # the deepest paths always
+                others = [x for x in prio if x not in set(longest)]
+                prio = longest + rng.sample(others, max_real // 2 - len(longest))
             rest = [x for x in real if x not in set(prio)]
             real = sorted(prio + rng.sample(rest, min(len(rest), max_real - len(prio))))
         near = G.near_misses(rng, r["tree"], paths, 6)
